@@ -214,6 +214,11 @@ func (p *Proc) Signal(s syscall.Signal) { p.Cmd.Process.Signal(s) }
 
 // Kill terminates the process group.
 func (p *Proc) Kill() {
+	if os.Getenv("VERIF_COVERDIR") != "" && p.Cmd != nil && p.Cmd.Process != nil {
+		// coverage survey: let the process write its counters first (verifhook, SIGUSR1)
+		p.Cmd.Process.Signal(syscall.SIGUSR1)
+		time.Sleep(150 * time.Millisecond)
+	}
 	if p == nil || p.Cmd == nil || p.Cmd.Process == nil {
 		return
 	}
